@@ -22,7 +22,7 @@ from mc.lattice import chunked
 from mc.ref import queryeval as Q
 
 BOUNDS = {
-    "quick": {"arg_shapes": "36 (16 base shapes + 5 special strings wrapped in list / nested list followed by an element / dict value / dict key)", "calls": "all calls of the probe functions with 0-3 arguments over the 35 shapes (44 136)", "contexts": 12, "styles": "all 42 separator-spacing styles (incl. tabs and CRLF line breaks) (none/space/newline before/after each of , : = ;) for calls with <=2 arguments, 3 styles x 6 contexts for 3 arguments", "literals": "all list/dict literals of depth <=2 over 3 atoms with <=2 entries", "builtins": "every registered function x argument pools x {literal, variable, nested call} forms"},
+    "quick": {"arg_shapes": "36 (16 base shapes + 5 special strings wrapped in list / nested list followed by an element / dict value / dict key)", "calls": "all calls of the probe functions with 0-3 arguments over the 35 shapes (44 136)", "contexts": 13, "styles": "all 42 separator-spacing styles (incl. tabs and CRLF line breaks) (none/space/newline before/after each of , : = ;) for calls with <=2 arguments, 3 styles x 6 contexts for 3 arguments", "literals": "all list/dict literals of depth <=2 over 3 atoms with <=2 entries", "builtins": "every registered function x argument pools x {literal, variable, nested call} forms"},
     "thorough": {"styles": "all 40 styles also for 3-argument calls", "calls4": "all calls with 4 arguments over the 15 base shapes (50 625) in 3 contexts x 3 styles", "literals": "depth 3 with <=2 entries over 2 atoms (sampled exhaustively by structure)", "rest": "as quick"},
 }
 RULE = (
@@ -197,10 +197,10 @@ def wrapped_strings():
     return out
 
 
-CONTEXTS = ("top", "list-elem", "list-mid", "dict-val", "arg-of-call", "arg-of-call-first", "bound-then-returned", "rebound-and-aliased", "return-rebound", "return-then-more", "return-uses-itself", "return-then-error")
+CONTEXTS = ("top", "list-elem", "list-mid", "dict-val", "arg-of-call", "arg-of-call-first", "bound-then-returned", "rebound-and-aliased", "return-rebound", "return-then-more", "return-uses-itself", "return-then-error", "same-call-text-twice")
 
 
-CONTEXTS3 = ("top", "dict-val", "arg-of-call-first", "rebound-and-aliased", "return-rebound", "return-then-error")
+CONTEXTS3 = ("top", "dict-val", "arg-of-call-first", "rebound-and-aliased", "return-rebound", "return-then-error", "same-call-text-twice")
 
 
 def in_context(call, ctx):
@@ -227,6 +227,11 @@ def in_context(call, ctx):
         return pre + (("RETURN", call), ("x", ("int", 3)), ("y", ("call", "id1", (("var", "x"),))))
     if ctx == "return-uses-itself":
         return pre + (("RETURN", call), ("RETURN", ("call", "args2", (("var", "RETURN"), ("var", "v")))))
+    if ctx == "same-call-text-twice":
+        # the identical call text is evaluated twice with a variable in it rebound in between
+        # (a seeded per-query memo keyed by the call's source text returned the first result again)
+        twice = ("call", "args2", (("var", "w"), call))
+        return pre + (("w", ("int", 1)), ("p", twice), ("w", ("list", (("int", 2),))), ("q", twice), ("RETURN", ("list", (("var", "p"), ("var", "q")))))
     if ctx == "return-then-error":
         return pre + (("RETURN", call), ("x", ("call", "no_such_function", ())))
     raise ValueError(ctx)
